@@ -52,6 +52,23 @@ fn main() {
                 o.flush().unwrap();
             }
         }
+        Some("cfg") => {
+            // native replay for C19: the real ConfigFile::new on a directory holding a Cargo.toml
+            use leptos_i18n_parser::parse_locales::cfg_file::ConfigFile;
+            let mut path = std::path::PathBuf::from(&args[2]);
+            let out = match ConfigFile::new(&mut path) {
+                Ok(cfg) => serde_json::json!({
+                    "ok": true,
+                    "default": cfg.default.name.to_string(),
+                    "locales": cfg.locales.iter().map(|k| k.name.to_string()).collect::<Vec<_>>(),
+                    "namespaces": cfg.name_spaces.as_ref().map(|v| v.iter().map(|k| k.name.to_string()).collect::<Vec<_>>()),
+                    "inherits": cfg.extensions.iter().map(|(k, v)| (k.name.to_string(), v.name.to_string())).collect::<std::collections::BTreeMap<_, _>>(),
+                    "locales_dir": cfg.locales_dir.to_string(),
+                }),
+                Err(e) => serde_json::json!({"ok": false, "error": e.to_string()}),
+            };
+            println!("{}", out);
+        }
         Some("default-of") => {
             // native replay for the MIR kernel of C03: {"default": "l0", "mapping": {"l1": "l2"}, "start": "l1"}
             use leptos_i18n_parser::parse_locales::locale::DefaultedLocales;
